@@ -590,8 +590,10 @@ def check_property(pid, tier='quick', seed=0):
         ],
     }
     ev['coverage'].update(extras.get('coverage', {}))
-    os.makedirs(os.path.join(VERIF, 'evidence'), exist_ok=True)
-    with open(os.path.join(VERIF, 'evidence', pid + '.json'), 'w') as f:
+    # evidence under /verif describes /repo only; a run against another tree (VERIF_REPO, used by tools/try_seed.sh) writes next to its work files
+    evdir = os.path.join(VERIF, 'evidence') if os.path.realpath(REPO) == '/repo' else os.path.join(workdir, 'evidence')
+    os.makedirs(evdir, exist_ok=True)
+    with open(os.path.join(evdir, pid + '.json'), 'w') as f:
         json.dump(ev, f, indent=1)
     for l in out_lines:
         print(l)
